@@ -137,13 +137,14 @@ Definition spec_rename_attr (from to_ : list Z) (a : afile) : afile :=
 (* RemoveAttribute *)
 Definition spec_remove_attr (nm : list Z) (a : afile) : afile := remove_first (a_is_attr nm) a.
 
+(* a negative index addresses nothing *)
+Definition guardZ (i : Z) (g : afile -> afile) (a : afile) : afile := if i <? 0 then a else g a.
+
 (* the body at path p = blocks[i1].body.blocks[i2].body... *)
 Fixpoint spec_with_body (p : list Z) (f : afile -> afile) (a : afile) {struct p} : afile :=
   match p with
   | [] => f a
-  | i :: p' =>
-      if i <? 0 then a
-      else upd_nth a_is_block (Z.to_nat i) (map_body (spec_with_body p' f)) a
+  | i :: p' => guardZ i (upd_nth a_is_block (Z.to_nat i) (map_body (spec_with_body p' f))) a
   end.
 Fixpoint spec_body_at (p : list Z) (a : afile) {struct p} : option afile :=
   match p with
@@ -172,7 +173,7 @@ Definition spec_step (o : op) (s : astate) : astate :=
           | None => s
           | Some k =>
               mkAState (a_pre s)
-                       (spec_with_body p (remove_nth_p a_is_block (Z.to_nat i)) (a_root s))
+                       (spec_with_body p (guardZ i (remove_nth_p a_is_block (Z.to_nat i))) (a_root s))
                        (a_post s) (a_shelf s ++ [k])
           end
       end
@@ -183,10 +184,8 @@ Definition spec_step (o : op) (s : astate) : astate :=
                    (remove_nth (Z.to_nat n) (a_shelf s))
       | _, _ => s
       end
-  | OSetType p i ty =>
-      if i <? 0 then s else on_aroot s p (upd_nth a_is_block (Z.to_nat i) (set_ty ty))
-  | OSetLabels p i ls =>
-      if i <? 0 then s else on_aroot s p (upd_nth a_is_block (Z.to_nat i) (set_labels ls))
+  | OSetType p i ty => on_aroot s p (guardZ i (upd_nth a_is_block (Z.to_nat i) (set_ty ty)))
+  | OSetLabels p i ls => on_aroot s p (guardZ i (upd_nth a_is_block (Z.to_nat i) (set_labels ls)))
   | OAppendRaw p ts => on_aroot s p (fun a => a ++ [ARaw ts])
   | OClear p => on_aroot s p (fun _ => [])
   end.
